@@ -138,6 +138,14 @@ func cmdDump(args []string) {
 					}
 				}
 			}
+			if os.Getenv("DBGEXITS") != "" {
+				for i, ex := range a.Exits() {
+					fmt.Printf("   EXIT %d results=%s\n", i, termList(ex.Results))
+					for _, l := range ex.State.units() {
+						fmt.Println("          unit", a.lt.str(l))
+					}
+				}
+			}
 			if os.Getenv("DBGSTATE") != "" {
 				for _, s := range a.Effects() {
 					fmt.Printf("   STATE at E(%d) %s\n", s.EIdx, s.Where(w))
